@@ -419,7 +419,17 @@ class DataFrameSchemaBackend(PandasSchemaBackend):
         # (e.g., ordered schema).
         schema_cols_dict: Dict[Any, None] = {}
         for col_name, col_schema in schema.columns.items():
-            if col_name in check_obj.columns or col_schema.required:
+            if col_schema.regex:
+                # a regex column stands for the dataframe columns it matches
+                try:
+                    matched = col_schema.get_backend(
+                        check_obj
+                    ).get_regex_columns(col_schema, check_obj)
+                except SchemaError:
+                    matched = []
+                for matched_col_name in matched:
+                    schema_cols_dict[matched_col_name] = None
+            elif col_name in check_obj.columns or col_schema.required:
                 schema_cols_dict[col_name] = None
 
         concat_ordered_cols = []
